@@ -38,6 +38,7 @@ type outcome struct {
 	held     []held
 	returned bool
 	defers   []int // indices (into fctx.deferCalls) of the defer statements executed so far
+	rel0     bool  // the handle lock (class 0) has been released at least once on this path
 }
 
 func heldKey(hs []held) string {
@@ -48,7 +49,9 @@ func heldKey(hs []held) string {
 	return strings.Join(h, ",")
 }
 
-func (o outcome) key() string { return fmt.Sprintf("%s|%v|%v", heldKey(o.held), o.returned, o.defers) }
+func (o outcome) key() string {
+	return fmt.Sprintf("%s|%v|%v|%v", heldKey(o.held), o.returned, o.defers, o.rel0)
+}
 
 // one lock action together with the locks held just before it
 type step struct {
@@ -68,6 +71,8 @@ type access struct {
 }
 
 type summary struct {
+	reacq    bool      // the handle lock is acquired again after having been released (two critical sections)
+	acq0     bool      // the handle lock is acquired inside
 	outs     []outcome // states at function exit (defers run)
 	steps    []step    // every lock action that can happen inside, with the locks held before it
 	accesses []access
@@ -195,6 +200,7 @@ type fctx struct {
 	deferCalls []*ast.CallExpr
 	accesses   []access
 	steps      []step
+	reacq      bool
 }
 
 func cloneHeld(h []held) []held { return append([]held{}, h...) }
@@ -214,7 +220,15 @@ func dedup(os []outcome) []outcome {
 
 func (c *fctx) addEvent(o outcome, acq bool, cls int, mode byte) outcome {
 	c.steps = append(c.steps, step{before: cloneHeld(o.held), acq: acq, cls: cls, mode: mode})
-	n := outcome{held: cloneHeld(o.held), returned: o.returned, defers: o.defers}
+	n := outcome{held: cloneHeld(o.held), returned: o.returned, defers: o.defers, rel0: o.rel0}
+	if cls == 0 {
+		if acq && o.rel0 {
+			c.reacq = true
+		}
+		if !acq {
+			n.rel0 = true
+		}
+	}
 	if acq {
 		n.held = append([]held{{cls, mode}}, n.held...)
 	} else {
@@ -301,7 +315,13 @@ func (x *lockX) summariseBody(typ *ast.FuncType, recv *ast.FieldList, body *ast.
 		}
 		final = append(final, cur...)
 	}
-	return &summary{outs: dedup(final), accesses: c.accesses, steps: c.steps}
+	acq0 := false
+	for _, st := range c.steps {
+		if st.acq && st.cls == 0 {
+			acq0 = true
+		}
+	}
+	return &summary{outs: dedup(final), accesses: c.accesses, steps: c.steps, reacq: c.reacq, acq0: acq0}
 }
 
 func (c *fctx) block(stmts []ast.Stmt, in []outcome) []outcome {
@@ -694,9 +714,12 @@ func (c *fctx) apply(s *summary, o outcome) []outcome {
 		c.accesses = append(c.accesses, s.accesses...)
 	}
 	c.steps = append(c.steps, s.steps...)
+	if s.reacq || (o.rel0 && s.acq0) {
+		c.reacq = true
+	}
 	res := []outcome{}
 	for _, p := range s.outs {
-		res = append(res, outcome{held: cloneHeld(p.held), returned: o.returned, defers: o.defers})
+		res = append(res, outcome{held: cloneHeld(p.held), returned: o.returned, defers: o.defers, rel0: o.rel0 || p.rel0})
 	}
 	return res
 }
@@ -714,9 +737,10 @@ func leanHeld(hs []held) string {
 func writeLocks(p *pkgInfo, dir string) error {
 	x := newLockX(p)
 	type entry struct {
-		name   string
-		steps  []step
-		finals [][]held
+		name     string
+		steps    []step
+		finals   [][]held
+		sections int
 	}
 	entries := []entry{}
 	allAcc := []access{}
@@ -727,6 +751,12 @@ func writeLocks(p *pkgInfo, dir string) error {
 	sort.Slice(fns, func(i, j int) bool { return fns[i].FullName() < fns[j].FullName() })
 	addEntry := func(name string, s *summary) {
 		e := entry{name: name}
+		if s.acq0 {
+			e.sections = 1
+		}
+		if s.reacq {
+			e.sections = 2
+		}
 		seen := map[string]bool{}
 		for _, st := range s.steps {
 			if !seen[st.key()] {
@@ -860,6 +890,13 @@ func writeLocks(p *pkgInfo, dir string) error {
 			sep = ""
 		}
 		fmt.Fprintf(b, "  { name := %s,\n    steps := [%s],\n    finals := [%s] }%s\n", leanStr(e.name), strings.Join(ss, ",\n      "), strings.Join(fs, ", "), sep)
+	}
+	b.WriteString("]\n\n/-- critical sections of the handle lock (class 0) per entry: 0 = never taken, 1 = taken once on\n    every path, 2 = taken again after having been released on some path -/\ndef sections : List (String × Nat) := [")
+	for i, e := range entries {
+		if i > 0 {
+			b.WriteString(", ")
+		}
+		fmt.Fprintf(b, "(%s, %d)", leanStr(e.name), e.sections)
 	}
 	b.WriteString("]\n\n/-- shared memory regions, index = region id -/\ndef regionNames : List String := [")
 	for i, n := range regNames {
